@@ -91,6 +91,9 @@ class ConcreteWorld(World):
 
         self.np = numpy
 
+    def prune(self):
+        raise RuntimeError("infeasible choice reached in the concrete twin")
+
     def canon(self, v):
         np = self.np
         if isinstance(v, Raised):
@@ -135,6 +138,12 @@ class SymbolicWorld(World):
         from . import symnp
 
         self.np = symnp
+
+    def prune(self):
+        """Abandon the current path (an infeasible combination of enumerated choices)."""
+        from .core import PathAbort
+
+        raise PathAbort()
 
     def mod(self, name):
         return sys.modules[name] if name in sys.modules else importlib.import_module(name)
